@@ -6,6 +6,9 @@ import Frequenz.Lemmas.RingBufferRefine
 import Frequenz.Lemmas.RingBufferNorm
 import Frequenz.Model.RingBufferQuery
 
+set_option linter.unusedSimpArgs false
+set_option linter.unusedVariables false
+
 namespace RingBuffer
 open Extracted.RingBuffer Extracted.RingBufferQuery
 
